@@ -26,9 +26,13 @@ fn bare<T: Serialize>(x: &T) -> Vec<u8> {
     b
 }
 fn bare_load<T: Deserialize>(b: &[u8]) -> String {
+    bare_load_use::<T>(b, &|_| ())
+}
+/// decode, and if that succeeds *use* the value: a value accepted from hostile bytes must be a sound one
+fn bare_load_use<T: Deserialize>(b: &[u8], use_value: &dyn Fn(&T)) -> String {
     let r = catch_unwind(AssertUnwindSafe(|| {
         let mut cur = std::io::Cursor::new(b);
-        Deserializer::bare_deserialize::<T>(&mut cur, 0).map(|_| ())
+        Deserializer::bare_deserialize::<T>(&mut cur, 0).map(|v| use_value(&v))
     }));
     match r {
         Ok(Ok(())) => "(ok)".into(),
@@ -108,7 +112,7 @@ fn probe<T: Serialize + Deserialize + WithSchema>(name: &str, x: &T, same: impl 
         }
         muts.push(m);
     }
-    for (m, rep) in muts.iter().zip(isolated_batch(&muts, |m| bare_load::<T>(m))) {
+    for (m, rep) in muts.iter().zip(isolated_batch(&muts, |m| bare_load_use::<T>(m, &|v| { let _ = show(v); }))) {
         out.push(format!("#stat extras-mutated-{} 1", rep.trim_matches(|c| c == '(' || c == ')').split(' ').next().unwrap_or("")));
         if rep.starts_with("(abort 14") {
             out.push(format!("!C06 malformed-input-hangs type={} input={} got=no-result-after-60s", name, hex(m)));
@@ -398,13 +402,26 @@ pub fn cases(r: &mut Rng, n: usize) -> Vec<String> {
                 bv.set(k, true);
             }
         }
-        probe("BitVec", &bv, |a, b| a == b, |a| format!("bits[{}]", a.len()), r, &mut out);
+        probe("BitVec", &bv, |a, b| a == b, |a| format!("bits[{}:{}]", a.len(), a.iter().filter(|b| *b).count()), r, &mut out);
+        // crafted headers: a byte count that is not a whole number of 32 bit words, with as many bits as those bytes hold
+        if i < 7 {
+            let nb = [1u64, 2, 3, 5, 6, 7, 9][i];
+            let mut m = Vec::new();
+            m.extend_from_slice(&(nb * 8).to_le_bytes());
+            m.extend_from_slice(&(nb | (1u64 << 63)).to_le_bytes());
+            m.extend((0..nb).map(|k| 0xa5u8.wrapping_add(k as u8)));
+            let rep = isolated_t(60, || bare_load_use::<bit_vec::BitVec>(&m, &|v| { let _ = v.iter().filter(|b| *b).count(); }));
+            out.push("#stat extras-crafted-bitvec 1".into());
+            if rep.starts_with("(panic") || (rep.starts_with("(abort") && !rep.contains("abort 6")) {
+                out.push(format!("!C06 malformed-input-yields-unusable-value type=BitVec input={} got={}", hex(&m), &rep[..rep.len().min(160)]));
+            }
+        }
         // bit_set::BitSet
         let mut bs = bit_set::BitSet::new();
         for _ in 0..r.below(12) {
             bs.insert(r.below(200) as usize);
         }
-        probe("BitSet", &bs, |a, b| a == b, |a| format!("set[{}]", a.len()), r, &mut out);
+        probe("BitSet", &bs, |a, b| a == b, |a| format!("set[{}:{}]", a.len(), a.iter().map(|x| x as u64).sum::<u64>()), r, &mut out);
         // PathBuf: valid UTF-8 and (on unix) arbitrary bytes
         let p = std::path::PathBuf::from(format!("/tmp/{}/é{}", r.below(1000), r.below(10)));
         probe("PathBuf", &p, |a, b| a == b, |a| format!("{:?}", a).replace(' ', "_"), r, &mut out);
